@@ -112,7 +112,7 @@ def concurrent_stage(ctx, thorough):
     ControlTrace.tla (linearization between call and return)."""
     total_events = total_rounds = tstates = 0
     for shared in (False, True):
-        rounds = 150 if not thorough else 1500
+        rounds = 150 if not thorough else 600
         tag = "conc_%s" % ("sh" if shared else "ex")
         text = record_trace(ctx, shared, rounds, tag)
         ok, hwm, n, r = validate_trace(ctx, text, shared, "tv_" + tag)
@@ -189,7 +189,7 @@ def regions_stage(ctx, thorough):
     g = ctx.tlc(AREA, "ControlRegionsGen", "crg.cfg", files={"crg.cfg": regions_cfg(False, depth=4 if not thorough else 5, maxt=3, maxcounter=50)},
                 tag="cr_gen", timeout=1500, workers=8)
     hp = ctx.path("gen_regions.ndjson")
-    n, smp = write_hists(ctx, g, hp, limit=120000 if not thorough else 300000)
+    n, smp = write_hists(ctx, g, hp, limit=120000 if not thorough else 200000)
     if n == 0:
         raise vlib.Inconclusive("no region histories generated")
     summ, bad = replay_file(ctx, hp, False, "rp_regions", reps=2)
@@ -309,7 +309,7 @@ def run(ctx):
             step.get("auth"), b["exp"], b["act"]),
             {"history": hist, "shared": shared, "mismatch": b,
              "cmd": "python3 tools/verif.py replay C05 <this file>"})
-    n_user = user_stage(ctx, ctx.path("gen_ex.ndjson"), 3000 if not thorough else 30000, thorough)
+    n_user = user_stage(ctx, ctx.path("gen_ex.ndjson"), 3000 if not thorough else 15000, thorough)
     total += n_user
     rs, rt, rn = regions_stage(ctx, thorough)
     states += rs
